@@ -448,7 +448,11 @@ def run_numbers_decoy(scn, steps=25):
     import random
     from nasim.envs import NASimEnv
     from nasim.scenarios import Scenario
-    for groups in (("scan",), ("defs",), ("values",), ("fw",), ("scan", "defs", "values", "fw")):
+    # order: the all-different decoy first AND last (a name-keyed cache that keeps the first, or the last, thing it saw
+    # holds nothing right), the one-group decoys in between (a cache whose key leaves exactly that group out is filled
+    # by the decoy that agrees with the scenario under test on the rest of the key)
+    every = ("scan", "defs", "values", "fw")
+    for groups in (every, ("scan",), ("defs",), ("values",), ("fw",), every):
         try:
             d = copy.deepcopy(scn.scenario_dict)
             if "scan" in groups:
